@@ -15,12 +15,19 @@ RULE = ("case = (generator type, construction path, jds, sizes, build callbacks,
         "generations on the same algorithm object / jds list, returned object damaged in between); the DESIGN section-3 replay is corpus entry 1; "
         "10 corpus entries are custom motifs with per-edge names whose vertex group repeats a vertex (clique / star / diamond / "
         "cycle builders: one callback result holds the same vertex pair at two positions). "
+        "LARGE RUNS, checker only (no model call): 2 (thorough 8) runs of the fast / network generator under the real seeded "
+        "random module with 66000-70000 2-cliques (+ sometimes up to 400 triangles, before or after them), i.e. more than 2^16 "
+        "motif instances -- layout 'deg1' (every vertex one stub, motifs vertex disjoint; also for the network variant, rows "
+        "read back from the graph) or 'hubs' (1000-2000 vertices of degree ~100) -- judged by the verified checker over Z "
+        "c02_check_ids on the logged callback results and the three columns. "
         "Non-trivial = valid case with >=2 motif instances of which one has >=2 edges or is a bare edge; distinct by "
         "(type, jds, sizes, builders, names, indices, pis)")
 EXHAUSTIVE = {"quick": True, "thorough": True}
 EXPLANATION = ("general theorems (all inputs, callbacks, permutations) in Props/C02.v, checker proved to decide the "
                "specification (sound + complete); correspondence exhaustive over "
-               "the small family named in the rule and seeded-random beyond")
+               "the small family named in the rule and seeded-random beyond; outputs with more than 2^16 motifs are judged by "
+               "c02_check_ids (integers as Z, one merge sort of the block ids), proved to accept only what c02_check accepts "
+               "(C02_big_checker_implies_checker / C02_big_checker_sound)")
 ASSUMPTIONS = [
     "random.shuffle is the only randomness used (every other entry point raises during a run)",
     "naming callbacks return one name per edge of their motif (a single name for the bare edge): the property's "
@@ -39,7 +46,12 @@ LEVEL_TEXT = (
     "proved sound AND complete for the Prop-level block specification (C02_checker_correct: it returns true iff "
     "every raw entry is a pair of non-negative ints and Spec_C02 holds), the model's own columns are proved to "
     "pass it for all inputs (C02_*_model_passes_checker), and it is run on the real generators' columns (raw "
-    "entries: every edge must be a pair of ints). Tied to /repo by exact column comparison under scripted shuffles.")
+    "entries: every edge must be a pair of ints). Tied to /repo by exact column comparison under scripted shuffles. "
+    "For edge lists too large for unary naturals (tens of thousands of motifs) the entry c02_check_ids runs c02_okz: the "
+    "same block judgement over Z for the fast / network generator, distinctness of the block ids through one merge sort; "
+    "C02_big_checker_implies_checker proves that whatever it accepts, c02_okb accepts on the nat image of the columns, so "
+    "Spec_C02 holds for the block decomposition given by the logged callback calls (C02_big_checker_sound), and "
+    "C02_big_checker_ids_distinct states the distinctness on the integers themselves.")
 LEVEL_NOTE = ("Trusted: Coq kernel; extraction + OCaml driver + Python harness for the correspondence. The fast "
               "generator with a bare-edge callback (entries would be ints) is outside the modelled surface. "
               "Print Assumptions: closed under the global context.")
@@ -134,13 +146,20 @@ def generate(rng, tier):
     # sizes / degrees / counts beyond the usual range (motif sizes 9..17, degrees up to 20, N up to 60)
     for i in range(n // 5):
         yield G.big_case(rng, [G.MOTIFS, G.FAST, G.MOTIFS, G.NETWORK][i % 4])
+    # checker-only stream: more than 2^16 motif instances (fast: both layouts; network: vertex-disjoint motifs)
+    for i in range(2 if quick else 8):
+        yield G.huge_case(rng, [G.FAST, G.NETWORK, G.FAST, G.FAST][i % 4])
 
 
 def impl(case):
+    if "huge" in case:
+        return G.run_huge(case)
     return G.impl_case(case)
 
 
 def model_calls(case, impl_obs):
+    if "huge" in case:
+        return []            # checker only: the unary-nat model cannot run 70000 motifs
     return G.model_calls_case("c02_run", case)
 
 
@@ -149,6 +168,13 @@ def model_obs(case, raws):
 
 
 def compare(case, impl_obs, model):
+    if "huge" in case:
+        if G.is_exc(impl_obs):
+            return "implementation raised %s on a large valid input" % impl_obs[1]
+        want = case["huge"]["n2"] + case["huge"]["n3"]
+        if impl_obs["n_calls"] != want:
+            return "large run: %d build-callback calls, expected %d" % (impl_obs["n_calls"], want)
+        return None
     return G.compare_case(case, impl_obs, model)
 
 
@@ -156,7 +182,12 @@ VACUOUS = [0, [], [], [], [], []]      # c02_check answers 1 on it
 
 
 def check_calls(case, impl_obs):
-    """two checker calls per step: c01_check (are the hypotheses met?) and c02_check on the columns"""
+    """two checker calls per step: c01_check (are the hypotheses met?) and c02_check on the columns;
+    large runs: ONE call of the checker over Z (c02_check_ids)"""
+    if "huge" in case:
+        if not isinstance(impl_obs, dict) or impl_obs.get("repeated_pairs"):
+            return []
+        return [("c02_check_ids", G.huge_check_tree(case, impl_obs))]
     steps = G.steps_of(case)
     calls = []
     for i, st in enumerate(steps):
@@ -168,6 +199,18 @@ def check_calls(case, impl_obs):
 
 
 def check_verdict(case, impl_obs, raws):
+    if "huge" in case:
+        if G.is_exc(impl_obs):
+            return "implementation raised %s on a large valid input (%d motifs)" % (
+                impl_obs[1], case["huge"]["n2"] + case["huge"]["n3"])
+        if impl_obs.get("repeated_pairs"):
+            return None          # network variant with a repeated vertex pair: rows cannot be read back (see C04)
+        if raws and raws[0] == 1:
+            return None
+        o = impl_obs
+        return ("c02_check_ids rejected the columns of a run with %d motif instances (lengths %d/%d/%d, %d distinct "
+                "ids): parallel columns, pair entries, one block per callback call with its edges / name / a private id"
+                % (o["n_calls"], len(o["edges"]), len(o["names"]), len(o["ids"]), len(set(map(repr, o["ids"])))))
     steps = G.steps_of(case)
     total = G.config_total(case)
     valid = [bool(raws) and raws[2 * i] != 2 and total for i in range(len(steps))]
@@ -189,6 +232,8 @@ def check_verdict(case, impl_obs, raws):
 def nontrivial_key(case, impl_obs):
     if not isinstance(impl_obs, dict) or "kind" in case:
         return None
+    if "huge" in case:
+        return [case["tag"], case["huge"]]
     res = [r for o in impl_obs["steps"] for r in o["results"]]
     if len(res) < 2:
         return None
@@ -199,10 +244,19 @@ def nontrivial_key(case, impl_obs):
 
 
 def shrink(case):
+    if "huge" in case:
+        return iter(())      # the case is a handful of parameters; below 2^16 motifs it says nothing new
     return G.shrink_case(case)
 
 
 def describe(case, impl_obs):
+    if "huge" in case:
+        d = {"generator": G.TAGNAME[case["tag"]], "via": case.get("via"), "large_run": case["huge"], "sizes": case["sizes"]}
+        if isinstance(impl_obs, dict):
+            d["callback_calls"] = impl_obs["n_calls"]
+            d["columns_head"] = [impl_obs["edges"][:4], impl_obs["names"][:4], impl_obs["ids"][:4]]
+            d["ids_tail"] = impl_obs["ids"][-4:]
+        return d
     d = G.describe_case(case, impl_obs)
     d["names"] = case["names"]
     if isinstance(impl_obs, dict) and "edges" in impl_obs["steps"][0]:
